@@ -8,7 +8,7 @@ from oracles import transformer_o as TO
 from props._util import rng_for
 
 LEVEL = "other"
-DEDUCTIVE = [{"module": "rnapolis.transformer", "sidecar": "contracts.transformer_c", "targets": ["copy_from_to", "replace_value"]}]
+DEDUCTIVE = [{"module": "rnapolis.transformer", "sidecar": "contracts.transformer_c", "targets": ["copy_from_to", "replace_value", "main"]}]
 TRUSTED = ["mmcif IoAdapterPy reader/writer (also used as the oracle's reader)", "CPython 3.12"]
 ASSUMPTIONS = ["the mmcif library's reader is trusted to report categories/items/rows of a document"]
 EXPLANATION = "see DESIGN.md 4/C20"
